@@ -45,7 +45,27 @@ UidCases(zzdummy) == LET ids == SetToSeq(Idents)
 RECURSIVE Flat(_)
 Flat(ss) == IF ss = <<>> THEN <<>> ELSE Head(ss) \o Flat(Tail(ss))
 
-EnumCases(zzdummy) == LET all == SetToSeq(UNION {[1..n -> Alpha] : n \in 0..N}) IN Flat([i \in DOMAIN all |-> CasesOf(all[i])]) \o UidCases(0)
+(* JSON literals that are numbers or keywords: a text the JSON reader of the specification accepts denotes its value, every other text
+   is rejected (signs, leading zeros, blanks that are not JSON blanks) *)
+ScalarTexts == << <<49>>, <<43, 49>>, <<48, 48, 55>>, <<45, 48, 49>>, <<48, 48>>, <<45, 48>>, <<48>>, <<49, 46>>, <<46, 53>>, <<49, 101>>, <<49, 69, 50>>, <<49, 46, 53>>,
+                 <<45, 49, 46, 50, 53>>, <<49, 95, 48>>, <<48, 120, 49>>, <<49, 32>>, <<32, 49>>, <<12, 49>>, <<49, 12>>, <<11, 116, 114, 117, 101>>, <<160, 49>>, <<116, 114, 117, 101>>,
+                 <<84, 114, 117, 101>>, <<110, 117, 108, 108>>, <<110, 117, 108>>, <<102, 97, 108, 115, 101, 32>>, <<133, 110, 117, 108, 108>>, <<8232, 49>>, <<49, 50, 51, 52, 53>>,
+                 <<45>>, <<43>>, <<49, 43, 49>>, <<78, 97, 78>>, <<73, 110, 102, 105, 110, 105, 116, 121>>, <<9, 10, 13, 32, 55, 32, 13, 10, 9>> >>
+ScalarCases(zzdummy) ==
+  [i \in DOMAIN ScalarTexts |->
+     LET p == JsonParse(ScalarTexts[i]) IN
+     IF p.ok /\ p.dom THEN [e |-> "lexval", kind |-> "lit", text |-> <<cBTICK>> \o ScalarTexts[i] \o <<cBTICK>>, doc |-> JNull, want |-> p.v]
+     ELSE [e |-> "lexval", kind |-> "bad", text |-> <<cBTICK>> \o ScalarTexts[i] \o <<cBTICK>>, doc |-> JNull, want |-> JNull]]
+(* quoted identifiers with malformed \\u escapes: surrogates that do not pair up, too few hex digits *)
+BadEscapes == << <<cBSLASH, 117, 100, 56, 51, 100, cBSLASH, 117, 101, 48, 48, 48>>, <<cBSLASH, 117, 100, 56, 51, 100, cBSLASH, 117, 102, 102, 102, 102>>,
+                <<cBSLASH, 117, 100, 56, 51, 100, cBSLASH, 117, 100, 56, 51, 100>>, <<cBSLASH, 117, 100, 56, 51, 100, cBSLASH, 117, 48, 48, 52, 49>>,
+                <<cBSLASH, 117, 100, 99, 48, 48>>, <<cBSLASH, 117, 100, 56, 51, 100>>, <<cBSLASH, 117, 48, 48, 52>>, <<cBSLASH, 117, 48, 48, 103, 49>>,
+                <<cBSLASH, 117, 100, 56, 51, 100, 97>>, <<cBSLASH, 117, 100, 56, 51, 100, cBSLASH, 110>>, <<cBSLASH, 85, 48, 48, 52, 49>> >>
+BadEscapeCases(zzdummy) ==
+  [i \in DOMAIN BadEscapes |-> [e |-> "lexval", kind |-> "bad", text |-> <<cDQUOTE, 97>> \o BadEscapes[i] \o <<cDQUOTE>>, doc |-> JNull, want |-> JNull]]
+  \o [i \in DOMAIN BadEscapes |-> [e |-> "lexval", kind |-> "bad", text |-> <<cBTICK, cDQUOTE>> \o BadEscapes[i] \o <<cDQUOTE, cBTICK>>, doc |-> JNull, want |-> JNull]]
+
+EnumCases(zzdummy) == LET all == SetToSeq(UNION {[1..n -> Alpha] : n \in 0..N}) IN Flat([i \in DOMAIN all |-> CasesOf(all[i])]) \o UidCases(0) \o ScalarCases(0) \o BadEscapeCases(0)
 SpellCases(zzdummy) == LET ps == ndJsonDeserialize(IOEnv.IN) IN Flat([i \in DOMAIN ps |-> CasesOf(ps[i].s)])
 
 ASSUME ndJsonSerialize(IOEnv.OUT, IF IOEnv.MODE = "enum" THEN EnumCases(0) ELSE SpellCases(0))
